@@ -479,10 +479,10 @@ func genB(tier string) []proto.RTItem {
 		}
 	}
 	// two requests for the same destination with DIFFERENT counts overlap on one Traceroute value (the HTTP server keeps one):
-	// each gets its own runs and samples (default schedule: the second request arrives while the first is in flight)
+	// each gets its own runs and samples, on every schedule of the two within one deviation
 	for _, c := range [][4]int{{2, 1, 1, 0}, {1, 0, 2, 1}, {1, 1, 1, 2}} {
 		r := proto.RTScn{Hostname: "203.0.113.77", Protocol: "udp", MinTTL: 1, MaxTTL: 4, DelayMs: 10, TimeoutMs: 100, Queries: c[0], E2e: c[1], Dest: 3, IPIDBase: 1500, EchoBase: 150,
-			Overlap2: true, SiblingQueries: c[2], SiblingE2e: c[3], Bound: -1}
+			Overlap2: true, SiblingQueries: c[2], SiblingE2e: c[3], Bound: 1}
 		items = append(items, proto.RTItem{Scn: r, Class: fmt.Sprintf("wire/overlapping-requests/runs=%d,e2e=%d+runs=%d,e2e=%d", c[0], c[1], c[2], c[3])})
 	}
 	// a request no run or probe of which can start (a protocol name the library does not know): an error, no result
